@@ -69,3 +69,35 @@ Lemma exD_run : exists ns, nrun gen_tables gen_facts 2 exD_prog (ninit 4 1 exD_p
   ns.(nh) = [Call 0 1 KDesync; Push 0 1; Ret 0; Call 1 2 KSync; Push 1 2; Run 1 2; Ret 1; Call 2 0 KDesync; Push 2 0; Ret 2; Run 0 1;
              Call 3 1 KSync; Push 3 1; Call 4 2 KDesync; Push 4 2; Ret 4; Call 5 2 KTry; RetBusy 5; Run 3 1; Ret 3; Run 2 0; Run 4 2].
 Proof. eexists. split; [vm_compute; reflexivity|done]. Qed.
+
+(* ---------- C10 with nesting: program S with pool maximum 2; caller 1 is frozen inside its sync closure on object 1 (blocked on a
+   gate); the pool thread running object 0's job is suspended: the body of that job waits in its nested sync behind caller 1.
+   Nobody but caller 1 can move; a second pool thread may still be spawned. ---------- *)
+From L1g Require Import Frozen.
+From L1n Require Import Quiet.
+Definition nterminal_except_b (T : tables) (F : facts) (ntop : nat) (P : prog) (B0 : list nat) (ns : nstate) : bool :=
+  forallb (fun a => bool_decide (a ∈ B0) || match nstep T F ntop P ns a with None => true | Some _ => false end) (seq 0 (length ns.(base).(actors))).
+Lemma nterminal_except_b_sound T F ntop P B0 ns : nterminal_except_b T F ntop P B0 ns = true -> nterminal_except T F ntop P B0 ns.
+Proof.
+  unfold nterminal_except_b. rewrite forallb_forall. intros H a Hn.
+  destruct (decide (a < length (actors (base ns)))) as [Hlt|Hge].
+  - specialize (H a). rewrite <- elem_of_list_In, elem_of_seq in H. specialize (H ltac:(lia)).
+    rewrite bool_decide_eq_false_2 in H by done. by destruct (nstep T F ntop P ns a).
+  - unfold nstep. assert (E : actors (base ns) !! a = None) by (apply lookup_ge_None_2; lia). rewrite E. by destruct (_ && _).
+Qed.
+Definition exF_tr : list nat := [0; 0; 0; 0; 0; 0; 0; 0; 1; 1; 3; 3; 3; 3; 3; 3; 3; 2; 2; 2; 2; 2; 2; 2].
+Lemma exF_run : exists ns, nrun gen_tables gen_facts 2 exS_prog (ninit 2 2 exS_prog) exF_tr = Some ns /\
+  tops ns = [Some (FTop []); Some (FSIrun 1); Some (FSBwait 1); Some (FDRrun 0 (JPlain 0))] /\
+  nterminal_except_b gen_tables gen_facts 2 exS_prog [1] ns = true /\
+  (owner <$> ns.(base).(queues)) = [Some 3; Some 1] /\ length ns.(base).(threads) = 1 /\ ns.(base).(maxt) = 2 /\ ns.(started) = [2].
+Proof. eexists. split; [vm_compute; reflexivity|done]. Qed.
+
+(* ---------- C05 with nesting: the drop of object 1 (= sync(free), operation 2) is issued by the body of a job of object 0, after the
+   desync 0 on object 1 has returned: 0 runs before 2, nothing runs on object 1 after 2 ---------- *)
+Definition exX_prog : prog := flatten [[NDesync 1 []; NDesync 0 [NSync 1 []]]].
+Definition exX_tr : list nat :=
+  [0; 0; 0; 0; 0; 0; 0; 0; 0; 0; 0; 0; 0; 0; 0; 2; 2; 2; 2; 2; 2; 2; 2; 2; 2; 2; 2; 2; 2; 2; 1; 1; 1; 1; 1; 2; 2; 2; 2; 2; 2; 2].
+Lemma exX_run : exists ns, nrun gen_tables gen_facts 1 exX_prog (ninit 2 1 exX_prog) exX_tr = Some ns /\
+  ns.(nh) = [Call 0 1 KDesync; Push 0 1; Ret 0; Call 1 0 KDesync; Push 1 0; Ret 1; Run 0 1; Call 2 1 KSync; Push 2 1; Run 2 1; Ret 2; Run 1 0] /\
+  ns.(ops) = [(1, None); (0, Some 1); (1, None)] /\ ncomplete 1 exX_prog ns = true.
+Proof. eexists. split; [vm_compute; reflexivity|done]. Qed.
